@@ -63,6 +63,20 @@ def coerce_expected(xs):
     return [repr(h), repr(p), repr("%r:%s %r:%s" % (h, type(h).__name__, p, type(p).__name__))]
 
 
+def hook_nodes(xs):
+    return [dict(id=0, kind="third", preds=[], xs=xs, njobs=len(xs)), dict(id=1, kind="sumup", preds=[0], njobs=1)]
+
+
+def hook_expected(xs):
+    """Every node carries pre_run / pre_run_task / post_run_task / post_run hooks; post_run_task rounds the output to
+    two digits.  Expected under EVERY worker: rounded values, and each hook called once per job."""
+    thirds = [round(float(x) / 3, 2) for x in xs]
+    outs = [repr(thirds), repr(round(sum(thirds), 2))]
+    calls = sorted("%s %s %s" % (h, nm, idx) for h in ("pre_run", "pre_run_task", "post_run_task", "post_run")
+                   for nm, idx in [("n0", i) for i in range(len(xs))] + [("n1", None)])
+    return outs, calls
+
+
 def run(ctx):
     rng = ctx.rng
     # the same workflows under several configurations
@@ -112,6 +126,17 @@ def run(ctx):
                dict(nodes=nodes, k=None, fail=[], oracle=[], mode="coerce_cf", n_procs=rng.choice([1, 3]), xs_param=xs)]
         cgroups.append((len(extra), len(grp), xs))
         extra += grp
+    # node-level hooks that alter the outputs / record their calls, across workers
+    hgroups = []
+    hcorp = [c.get("case", c)["xs_param"] for c in ctx.corpus() if c.get("case", c).get("mode", "").startswith("hook")]
+    for n in range(fakes.bud(ctx, 2, 10) + len(hcorp)):
+        xs = hcorp[n] if n < len(hcorp) else rng.sample([1, 2, 4, 5, 7, 8, 10, 11], rng.randint(2, 3))
+        nodes = hook_nodes(xs)
+        grp = [dict(nodes=nodes, k=None, fail=[], oracle=[], mode="hook_sync", xs_param=xs),
+               dict(nodes=nodes, k=rng.choice([None, 1, 2]), fail=[], oracle=fakes.gen_oracle(rng, len(xs) + 1), mode="hook", xs_param=xs),
+               dict(nodes=nodes, k=None, fail=[], oracle=[], mode="hook_cf", n_procs=rng.choice([1, 2]), xs_param=xs)]
+        hgroups.append((len(extra), len(grp), xs))
+        extra += grp
     out, cases, obs, usable, bad = fakes.drive(
         ctx, "c17", SPEC, fakes.bud(ctx, 10, 150), fakes.bud(ctx, 3, 30), fakes.bud(ctx, 6, 200), RULE,
         "outputs differ from the reference evaluation of the workflow", fail_p=0.0, extra_cases=extra)
@@ -153,6 +178,18 @@ def run(ctx):
                     case=c, observed=fakes.slim(o), expected={"outputs (repr)": want}, kind="spec",
                     note="outputs that need coercion to the declared type differ between workers / from the stored value"))
                 break
+    for start, n, xs in hgroups:
+        want_out, want_calls = hook_expected(xs)
+        for j in range(n):
+            c, o = cases[base + start + j], obs[base + start + j]
+            if o.get("outcome") not in ("ok", "error"):
+                continue
+            if o.get("outcome") != "ok" or o.get("outputs") != want_out or o.get("hook_calls") != want_calls:
+                out.failures.append(Failure(
+                    case=c, observed=fakes.slim(o), expected={"outputs (repr)": want_out, "hook_calls": want_calls},
+                    kind="spec", note="node-level hooks are not applied identically by every worker"))
+                break
+    out.extra["hook_workflows_compared_across_workers"] = len(hgroups)
     out.extra["coercion_workflows_compared_across_workers"] = len(cgroups)
     out.extra["state_propagating_workflows_compared"] = nstate
     out.extra["workflows_compared_across_workers"] = ngroups
@@ -166,6 +203,13 @@ def replay(ctx, payload):
         cs = [dict(nodes=case["nodes"], fail=[], oracle=[], **cfg) for cfg in case["configurations"]]
         for c, o in zip(cs, fakes.run_batch(cs, nproc=2)):
             print({k: c.get(k) for k in ("mode", "k", "n_procs")}, "->", o.get("outputs") if o.get("outcome") == "ok" else o.get("msg"))
+        return
+    if case.get("mode", "").startswith("hook"):
+        cs = [dict(case, mode=m, oracle=case.get("oracle") if m == "hook" else [], n_procs=case.get("n_procs") or 2)
+              for m in ("hook_sync", "hook", "hook_cf")]
+        for c, o in zip(cs, fakes.run_batch(cs, nproc=3)):
+            print(c["mode"], "->", o.get("outputs") if o.get("outcome") == "ok" else o.get("msg"), o.get("hook_calls"))
+        print("expected:", hook_expected(case["xs_param"]))
         return
     if case.get("mode", "").startswith("coerce"):
         cs = [dict(case, mode=m, oracle=case.get("oracle") if m == "coerce" else [], n_procs=case.get("n_procs") or 2)
